@@ -366,10 +366,11 @@ class PatternExec(JSExec):
         self.trace = []
         return len(exits)
 
-def run_patterns(rep, spec, tier='quick', verbose=False, only=None, which=('grid', 'compound')):
+def run_patterns(rep, spec, tier='quick', verbose=False, only=None, which=('grid', 'compound', 'float')):
     cases = []
     if 'grid' in which: cases += build_grid(tier)
     if 'compound' in which: cases += compound_cases()
+    if 'float' in which: cases += float_cases()
     if only: cases = [c for c in cases if only in c.name]
     gosrc = 'package main\n\nfunc main() {}\n\n' + '\n'.join(c.gosrc for c in cases) + '\n'
     with tempfile.TemporaryDirectory(prefix='gvc-pat-') as td:
@@ -392,7 +393,10 @@ def run_patterns(rep, spec, tier='quick', verbose=False, only=None, which=('grid
             continue
         before = len(ex.obls)
         try:
-            npaths += ex.verify_case(c, fn)
+            if isinstance(c, FCase):
+                ex.verify_float_case(c, fn); npaths += 1
+            else:
+                npaths += ex.verify_case(c, fn)
             rep.functions.append('emitted ' + c.name)
         except (Unsupported, KeyError, RecursionError) as e:
             del ex.obls[before:]
@@ -554,3 +558,156 @@ def _verify_spec_case(self, case, fn):
                 self.oblige(state, 'panic-message', z3.BoolVal(str(info) == case.msg))
     self.trace = []
 PatternExec.verify_spec_case = _verify_spec_case
+
+
+# ---------------------------------------------------------------------------------------------------------------------
+# Floating-point operand kinds (mode fp: IEEE-754 in the SMT floating-point theory).  float32 arithmetic is specified as
+# "the double operation rounded to single" -- equal to the single-precision operation for + - * / by the double-rounding
+# theorem (Figueroa 1995), which is a listed assumption, not proved here.
+FOPS = ['+', '-', '*', '/']
+FCMP = ['==', '!=', '<', '<=', '>', '>=']
+INTK32 = ['int8', 'int16', 'int32', 'int', 'uint8', 'uint16', 'uint32', 'uint', 'uintptr']
+
+class FCase:
+    def __init__(self, name, params, ret, gosrc, tree):
+        self.name, self.params, self.ret, self.gosrc, self.tree, self.mode, self.pre = name, params, ret, gosrc, tree, 'fp', None
+
+def float_cases():
+    C = []
+    def add(name, params, ret, tree, body=None):
+        gs = 'func %s(%s) %s { %s }' % (name, ', '.join('%s %s' % (n, k) for n, k in params), ret, body or ('return %s' % src(tree)))
+        C.append(FCase(name, params, ret, gs, tree))
+    for fk in ('float64', 'float32'):
+        x, y, a, b = [('var', n, fk) for n in 'xyab']
+        for op in FOPS:
+            add('F_%s_%s_vv' % (OPNAME[op], fk), [('x', fk), ('y', fk)], fk, ('bin', op, x, y, fk))
+            add('F_%s_assign_%s' % (OPNAME[op], fk), [('x', fk), ('a', fk), ('b', fk)], fk, ('bin', op, x, ('bin', '+', a, b, fk), fk), body='x %s= a + b; return x' % op)
+            add('F_%s_assign_sub_%s' % (OPNAME[op], fk), [('x', fk), ('a', fk), ('b', fk)], fk, ('bin', op, x, ('bin', '-', a, b, fk), fk), body='x %s= a - b; return x' % op)
+        for op in FCMP:
+            add('F_%s_%s_vv' % (OPNAME[op], fk), [('x', fk), ('y', fk)], 'bool', ('bin', op, x, y, 'bool'))
+        add('F_neg_%s' % fk, [('x', fk)], fk, ('un', '-', x, fk))
+        add('F_negneg_%s' % fk, [('x', fk)], fk, ('un', '-', ('un', '-', x, fk), fk))
+        add('F_mul_sum_%s' % fk, [('x', fk), ('a', fk), ('b', fk)], fk, ('bin', '*', x, ('bin', '+', a, b, fk), fk))
+        add('F_sub_sub_%s' % fk, [('x', fk), ('a', fk), ('b', fk)], fk, ('bin', '-', x, ('bin', '-', a, b, fk), fk))
+        add('F_div_mul_%s' % fk, [('x', fk), ('a', fk), ('b', fk)], fk, ('bin', '/', x, ('bin', '*', a, b, fk), fk))
+        for ik in INTK32:
+            add('F_conv_%s_to_%s' % (ik, fk), [('x', ik)], fk, ('conv', fk, ('var', 'x', ik)))
+    add('F_conv_float64_to_float32', [('x', 'float64')], 'float32', ('conv', 'float32', ('var', 'x', 'float64')))
+    add('F_conv_float32_to_float64', [('x', 'float32')], 'float64', ('conv', 'float64', ('var', 'x', 'float32')))
+    return C
+
+def fround(v):
+    return z3.fpToFP(z3.RNE(), z3.fpToFP(z3.RNE(), v, F32), F64)
+
+def fsem(t, env):
+    k = t[0]
+    if k == 'var': return env[t[1]]
+    if k == 'conv':
+        v = fsem(t[2], env)
+        return fround(v) if t[1] == 'float32' else v
+    if k == 'un':
+        v = z3.fpNeg(fsem(t[2], env))
+        return v
+    if k == 'bin':
+        op = t[1]; a, b = fsem(t[2], env), fsem(t[3], env)
+        if op in FCMP:
+            return {'==': z3.fpEQ(a, b), '!=': z3.Not(z3.fpEQ(a, b)), '<': z3.fpLT(a, b), '<=': z3.fpLEQ(a, b), '>': z3.fpGT(a, b), '>=': z3.fpGEQ(a, b)}[op]
+        rm = z3.RNE()
+        r = {'+': z3.fpAdd, '-': z3.fpSub, '*': z3.fpMul, '/': z3.fpDiv}[op](rm, a, b)
+        return fround(r) if t[4] == 'float32' else r
+    raise ValueError(t)
+
+def _verify_float_case(self, case, fn):
+    reset_fresh()
+    self.known_ranges = {}; self.u32view = {}; self.dmcache = {}; self.tzinfo = {}; self._keep = []
+    self.mode = 'fp'
+    fr = Frame('pattern ' + case.name, fn, None)
+    fr.loops = {}; fr.loop_specs = {}
+    self.frame = fr
+    self.loop_cache = {}
+    st = State()
+    env = {}
+    bits = {}
+    for (pn, pk) in case.params:
+        if pk == 'float64':
+            v = fresh(pn, F64)
+        elif pk == 'float32':
+            f = fresh(pn, F32); v = z3.fpToFP(z3.RNE(), f, F64)
+        else:
+            w, sg = KINDS[pk]
+            bvv = fresh(pn, z3.BitVecSort(w))
+            v = z3.fpSignedToFP(z3.RNE(), bvv, F64) if sg else z3.fpUnsignedToFP(z3.RNE(), bvv, F64)
+        st.env[pn] = v; env[pn] = v
+    entry = st.clone(); st.entry = entry; entry.entry = entry
+    fr.replayer = FloatReplayer(self, case, entry)
+    want = fsem(case.tree, env)
+    body = fn['body']
+    def run(state):
+        self.block(state, body['body'])
+        return None
+    n = 0
+    for (how, state, info) in self.run_paths(st, run):
+        self.trace = ['exit', n]; n += 1
+        if how == 'return':
+            r = info[0]
+            if case.ret == 'bool':
+                self.oblige(state, 'value', r == want)
+            else:
+                self.oblige(state, 'value', z3.Or(z3.And(z3.fpIsNaN(r), z3.fpIsNaN(want)), r == want))
+                if case.ret == 'float32':
+                    self.oblige(state, 'single-precision result', z3.Or(z3.fpIsNaN(r), r == fround(r)))
+        elif how == 'panic':
+            self.oblige(state, 'no-panic(%s)' % info, z3.BoolVal(False))
+        else:
+            self.oblige(state, 'returns-a-value', z3.BoolVal(False))
+    self.trace = []
+PatternExec.verify_float_case = _verify_float_case
+
+class FloatReplayer:
+    def __init__(self, ex, case, entry):
+        self.ex, self.case, self.entry = ex, case, entry
+    def replay(self, ob):
+        import numpy as np, struct
+        s = z3.Solver(); s.set('timeout', 30000); s.add(ob.hyps)
+        if ob.kind == 'proof': s.add(z3.Not(ob.goal))
+        if s.check() != z3.sat:
+            return {'violates': False, 'note': 'in-process solver did not reproduce the model'}
+        m = s.model()
+        env, jsargs, shown = {}, [], {}
+        for (pn, pk) in self.case.params:
+            v = self.entry.env[pn]
+            b = m.eval(z3.fpToIEEEBV(v), model_completion=True).as_long()
+            d = struct.unpack('<d', struct.pack('<Q', b))[0]
+            env[pn] = np.float32(d) if pk == 'float32' else (np.float64(d) if pk == 'float64' else int(d))
+            jsargs.append('f64("%d")' % b)
+            shown[pn] = repr(d)
+        def ev(t):
+            k = t[0]
+            if k == 'var': return env[t[1]]
+            if k == 'conv':
+                v = ev(t[2]); return np.float32(v) if t[1] == 'float32' else np.float64(v)
+            if k == 'un': return -ev(t[2])
+            op = t[1]; a, b = ev(t[2]), ev(t[3])
+            if op in FCMP: return bool({'==': a == b, '!=': a != b, '<': a < b, '<=': a <= b, '>': a > b, '>=': a >= b}[op])
+            with np.errstate(all='ignore'):
+                return {'+': a + b, '-': a - b, '*': a * b, '/': a / b}[op]
+        with np.errstate(all='ignore'):
+            want = ev(self.case.tree)
+        if isinstance(want, bool): want_s = 'true' if want else 'false'
+        else:
+            wb = struct.unpack('<Q', struct.pack('<d', float(want)))[0]
+            want_s = 'NaN' if want != want else str(wb)
+        body = ('var f64 = function(s) { var u = new BigUint64Array([BigInt(s)]); return new Float64Array(u.buffer)[0]; };\n'
+                'var bits = function(x) { if (x !== x) return "NaN"; var f = new Float64Array([x]); return new BigUint64Array(f.buffer)[0].toString(); };\n'
+                'console.log(tryc(function() { var r = P.%s(%s); return typeof r === "boolean" ? String(r) : bits(r); }));' % (self.case.name, ', '.join(jsargs)))
+        gosrc = 'package main\n\nfunc main() {}\n\n' + self.case.gosrc + '\n'
+        out, err = e2e.run(gosrc, body)
+        if out is None:
+            return {'violates': False, 'note': 'end-to-end harness failed: %s' % (err or '')[-300:]}
+        got = out.strip().splitlines()[-1] if out.strip() else ''
+        res = {'go_function': self.case.gosrc, 'inputs': shown, 'compiled_js_result_bits': got, 'go_spec_result_bits': want_s,
+               'harness': 'real compiler + prelude of /repo under node; expected value from numpy IEEE arithmetic'}
+        res['violates'] = (got != want_s)
+        if res['violates']:
+            res['violated_clauses'] = ['compiled %s gives bits %s, Go gives bits %s' % (self.case.name, got, want_s)]
+        return res
